@@ -5,7 +5,10 @@
        v = model of the validator (regex-validated formats: `Re.accepts` of the regenerated
            regex; parser-validated formats: the model of the Go parser in Model/GoParsers.lean),
        p = `Re.accepts` of the regenerated exported pattern(s), s = the specification automaton.
-       `Re.accepts` is evaluated through a table of cached `Re.deriv` results (same function).
+       `Re.accepts` itself is run (round 4c, audit B LOW: before, a table of cached `Re.deriv` results,
+       `Dfa.run (buildDfa r [])`, stood in for it without a lemma `Dfa.run = Re.accepts`; 1.3 M cases
+       take 20 s instead of 10 s).  The `Dfa` below only serves the certificate SEARCH of --emit-cert,
+       whose output is checked by the kernel (`bisim_sound_full` over the emitted certificate).
   --emit-cert DIR STATUS   for every certificate job: explore the product of the pattern's
        derivative automaton with the specification automaton over all 256 bytes; either write the
        bisimulation certificate as a Lean literal (DIR/Cert_<job>.lean, only when changed) or
@@ -24,7 +27,7 @@ import Gozod.Drv.Loop
 namespace Gozod.Drv.C20
 open Gozod
 
-/-! ## derivative automaton over byte classes -/
+/-! ## derivative automaton over byte classes (certificate search only; unverified, its output is kernel-checked) -/
 
 def reRanges : Re → List (Nat × Nat)
   | .cls rs => rs
@@ -144,14 +147,14 @@ def formats : List Format := [
 structure Live where
   fmt : Format
   kind : String
-  vals : List Dfa
-  pats : List Dfa
+  vals : List Re
+  pats : List Re
 
 def mkLive : List (String × Live) :=
   formats.filterMap fun f =>
     match Gen.table.lookup f.name with
     | none => none
-    | some e => some (f.name, { fmt := f, kind := e.kind, vals := e.vals.map (buildDfa · []), pats := e.pats.map (buildDfa · []) })
+    | some e => some (f.name, { fmt := f, kind := e.kind, vals := e.vals, pats := e.pats })
 
 def hexVal (c : Char) : Option Nat :=
   if '0' ≤ c ∧ c ≤ '9' then some (c.toNat - 48)
@@ -177,9 +180,9 @@ def handle (lives : List (String × Live)) : List String → String
     match lives.lookup name, parseBytes hx with
     | some l, some bytes =>
       -- regex-validated: the regex; parser-validated: the parser model and every regex it also requires
-      let v := if l.kind.startsWith "regex:" then l.vals.all (·.run bytes)
-               else l.vals.all (·.run bytes) && l.fmt.parser bytes
-      let p := l.pats.all (·.run bytes)
+      let v := if l.kind.startsWith "regex:" then l.vals.all (Re.accepts · bytes)
+               else l.vals.all (Re.accepts · bytes) && l.fmt.parser bytes
+      let p := l.pats.all (Re.accepts · bytes)
       let s := l.fmt.spec bytes
       -- a second, independently written reading of the same definition must agree (list-based RFC 4291 recogniser)
       let s2 := match name with
